@@ -196,7 +196,8 @@ impl BuilderModel {
         let buf = self.buf.as_mut().unwrap();
         for c in chunks {
             if c.is_empty() { continue; }
-            if buf.len() > 65535 + 16 { return false; }
+            // (no size limit in the model: where the Writer refuses is pinned by no property; what matters is that
+            // whatever a history that SUCCEEDS has written is all there - `check_builder` ends a history the real code refuses)
             buf.extend_from_slice(&c);
         }
         true
